@@ -54,7 +54,7 @@ REQUIRED = ["histories", "operations", "open_log_checks", "index_ops", "negative
             "large_populations", "roots_spelled_differently",
             "transform_checked", "tap_load", "symbolic_link_entries",
             "audit_file_opens"]
-FLOOR = {"quick": 250, "thorough": 5000}
+FLOOR = {"quick": 250, "thorough": 20000}
 SHARDS = {"quick": 8, "thorough": 16}
 TIMEOUT = {"quick": 300, "thorough": 3000}
 
@@ -593,7 +593,7 @@ def run(ctx):
     rng = ctx.rng
     tap = probes.CallTap({"load": LazyLoadingTrees.load})
     with tap:
-        for k in range(ctx.scale(420, 8400)):
+        for k in range(ctx.scale(420, 33600)):
             u = k % 10
             seed = int(rng.integers(0, 2**31 - 1))
             if u < 5:
